@@ -40,6 +40,7 @@ pub struct World {
     pub slept_ns: nat,                  // duration of the last completed sleep()
     pub attempted: bool,                // add_payment_attempt was called by us (an outgoing attempt may exist)
     pub fail_sent: bool,                // a value was put in the fail_requested channel (by handle_htlc)
+    pub fail_received: Option<RespAbs>, // the failure we took out of the fail_requested channel, if any
     pub lock_held: bool,                // the global table mutex is held by us
     pub faulted: bool,                  // some RPC faulted (transport error: effect unknown)
     pub rpc_under_lock: bool,           // an RPC was issued while lock_held (C14: must stay false)
@@ -120,7 +121,7 @@ pub open spec fn rely_env(a: World, b: World) -> bool {
     // constants
     &&& same_consts(a, b)
     // ours alone
-    &&& b.released == a.released && b.resolved == a.resolved && b.lock_held == a.lock_held
+    &&& b.released == a.released && b.resolved == a.resolved && b.lock_held == a.lock_held && b.fail_received == a.fail_received
     &&& b.received_read == a.received_read && b.min_expiry_read == a.min_expiry_read && b.height_at_init == a.height_at_init
     &&& b.height_read == a.height_read && b.height_told >= a.height_told && b.last_polled == a.last_polled && b.wait_started_ns == a.wait_started_ns
     &&& b.slept_ns == a.slept_ns && b.rpc_under_lock == a.rpc_under_lock
